@@ -33,13 +33,13 @@ def run(ctx):
         for s in ss:
             for i in range(len(s) + 1):
                 inputs.append((kind, s[:i], 'prefix'))
-        nmut = 20000 if thorough else 1500
+        nmut = 20000 if thorough else 1500 * ctx.scale
         for _ in range(nmut):
             s = rng.choice(ss)
             for _ in range(rng.choice([1, 1, 2, 3])):
                 s = G.mutate(rng, s)
             inputs.append((kind, s, 'mutant'))
-        for _ in range(5000 if thorough else 400):
+        for _ in range(5000 if thorough else 400 * ctx.scale):
             n = rng.choice([0, 1, 2, 5, 20, 100, 1000])
             inputs.append((kind, bytes(rng.getrandbits(8) for _ in range(n)), 'random'))
     # bounded-exhaustive tails after a valid prefix (start line / header section)
